@@ -551,6 +551,72 @@ impl<'t, C: Ws> World<'t, C> {
         Ok(())
     }
 
+    /// C09 fault enumeration at *this* position of the history, on clones of the coder (the
+    /// history itself is not disturbed): (a) a catalogue of out-of-support symbols for the
+    /// model about to be used, (b) the very next backend write failing (Store backend) or the
+    /// sink being full (bounded cursor with no room left).
+    fn enumerate_faults_here(&mut self, mi: usize, sym: i64, ctx: &mut Ctx) -> Result<(), Violation> {
+        let model = self.model(mi).expect("checked");
+        let lo = *model.support.iter().min().unwrap();
+        let hi = *model.support.iter().max().unwrap();
+        let s0 = model.support[(self.n_enc + mi) % model.support.len()];
+        let pre_state = self.coder.state();
+        let pre_bulk = self.coder.bulk_words();
+        for cand in [lo - 1, hi + 1, i64::from(i32::MAX), i64::from(i32::MIN), s0 + (1i64 << 8), s0 + (1i64 << 16), s0 + (1i64 << 32), s0 - (1i64 << 8), s0 + (1i64 << model.p.min(62)), s0 + (1i64 << model.pb.min(62))] {
+            if model.in_support(cand) {
+                continue;
+            }
+            let mut c = self.coder.clone_();
+            let res = c.enc(model, cand);
+            ctx.stats.hit("fault-badsym-enumerated");
+            if !res.is_impossible() {
+                viol!(ctx, "C09", "ans-impossible-symbol-not-rejected", "sym={} model={:?} -> {:?} (enumerated at encode position {})", cand, self.t.models[mi], res, self.n_enc);
+            }
+            if c.state() != pre_state || c.bulk_words() != pre_bulk {
+                viol!(ctx, "C09", "ans-changed-by-rejected-symbol", "sym={} state {:#x}->{:#x}", cand, pre_state, c.state());
+            }
+        }
+        // (b) write failure exactly at this encode
+        let failing: Option<Coder<C>> = match &self.coder {
+            Coder::St(c) => {
+                let (mut bulk, state) = c.clone().into_raw_parts();
+                bulk.fail_write_in = Some(0);
+                bulk.sticky = true;
+                Some(Coder::St(AnsCoder::from_raw_parts(bulk, state)))
+            }
+            Coder::V(c) => {
+                // same content on a cursor with no room left
+                let (bulk, state) = c.clone().into_raw_parts();
+                let len = bulk.len();
+                Cursor::new_at_pos(bulk, len).ok().map(|cur| Coder::Cur(AnsCoder::from_raw_parts(cur, state)))
+            }
+            _ => None,
+        };
+        if let Some(mut c) = failing {
+            let res = c.enc(model, sym);
+            match res {
+                EncRes::Backend(_) => {
+                    ctx.stats.hit("fault-write-failure-enumerated");
+                    if c.state() != pre_state || c.bulk_words() != pre_bulk {
+                        viol!(ctx, "C09", "ans-changed-by-failed-write", "state {:#x}->{:#x} (enumerated at encode position {})", pre_state, c.state(), self.n_enc);
+                    }
+                    // everything encoded before still decodes: pop the LIFO stack on the clone
+                    for e in self.stack.iter().rev().take(4) {
+                        let Some(mm) = self.model(e.m) else { break };
+                        if !mm.can_decode() { break; }
+                        let got = c.dec(mm);
+                        if got != DecRes::Ok(e.sym) {
+                            viol!(ctx, "C09", "ans-earlier-symbols-lost-after-failed-write", "decoded {:?} expected {}", got, e.sym);
+                        }
+                    }
+                }
+                EncRes::Ok => {} // no flush was needed at this position
+                other => viol!(ctx, "C09", "in-support-symbol-rejected", "{:?}", other),
+            }
+        }
+        Ok(())
+    }
+
     fn step(&mut self, op: &AnsOp, ctx: &mut Ctx) -> Result<(), Violation> {
         match op {
             AnsOp::Enc { sym, m } => {
@@ -558,6 +624,9 @@ impl<'t, C: Ws> World<'t, C> {
                 if !model.can_encode() || model.lcp64(*sym).is_none() {
                     ctx.stats.hit("skipped-op");
                     return Ok(());
+                }
+                if ctx.on("C09") {
+                    self.enumerate_faults_here(*m, *sym, ctx)?;
                 }
                 let before = self.export_sig();
                 let wb = self.coder.bulk_words().len();
@@ -1292,7 +1361,7 @@ impl GenParams {
             p_other_model_decode: 30,
             init_binary: 10,
             init_compressed: 15,
-            backends: vec![Backend::Vec, Backend::Vec, Backend::Small, Backend::Cursor { cap: 4096 }, Backend::Store, Backend::RevCursor { cap: 4096 }],
+            backends: vec![Backend::Vec, Backend::Vec, Backend::Vec, Backend::Small, Backend::Cursor { cap: 4096 }, Backend::Store, Backend::RevCursor { cap: 4096 }, Backend::Cursor { cap: 5 }, Backend::RevCursor { cap: 4 }],
             small_words_bias: true,
         };
         // swarm: randomly disable / boost op kinds per run
